@@ -542,3 +542,75 @@ PROPS["C15"] = _cw3_prop("C15", 3, C15_CLAUSES, "deposit messages and balances",
     "so refunds <= 1; an expired failed proposal still stored Open is always closable with refund; c15_refuted proves that not "
     "every failed proposal is (known finding D6). Tie to the Rust: S_C15 on every transaction incl. balance deltas of "
     "proposer and multisig in bank / cw20 (measured).")
+
+
+# ------------------------------------------------------------------------------------------
+# ics20 family
+C11_CLAUSES = {1: "holdings of a token below the sum over channels of its outstanding balance",
+               2: "a channel's outstanding balance exceeds what was escrowed on it (paid out more than escrowed)",
+               3: "a packet naming a foreign denomination / port / channel or more than the outstanding balance released tokens or changed state"}
+C12_CLAUSES = {1: "accepted transfer did not emit exactly one packet with the escrowed amount, key, true sender, receiver, memo and timeout",
+               2: "packet amount above 2^64-1", 3: "channel balance / total not raised by exactly the amount (or another entry moved)",
+               4: "a failed call moved balances", 5: "transfer accepted without exactly one coin of a plain denom / a well-formed cw20 hook",
+               6: "a governance call touched channel balances or emitted messages", 7: "handling an incoming packet aborted",
+               8: "error acknowledgement, yet balances / escrow / payouts differ from before the packet",
+               9: "success acknowledgement without the balance reduced by exactly the amount", 10: "success acknowledgement without the receiver being paid the amount",
+               11: "a success acknowledgement of our packet changed balances", 12: "failed send not taken off the channel balance by exactly its amount",
+               13: "refund of a failed send not paid to the original sender", 14: "tokens sent outside the protocol changed channel balances",
+               20: "accounting identity outstanding = sent - failed - redeemed broken"}
+C18_CLAUSES = {1: "an allowed token was removed or its gas limit lowered", 2: "allow list / governance / defaults changed other than by the governance address's own call",
+               3: "cw20 transfer accepted although the token is not allowed and no default gas limit is set",
+               4: "payout / refund issued with a gas limit other than the token's limit or the default",
+               5: "migrate touched the allow list or the governance address", 6: "migrate lost the default gas limit"}
+
+
+def mk_ics20_run(eval_index, clauses, proj):
+    def run(prop, tier, seed, replay, coverage):
+        return run_trace_family("ics20", "ics20", eval_index, clauses, proj, prop, tier, seed, replay, coverage,
+                                quick_n=256, thorough_n=3200, steps=30)
+    return run
+
+
+ICS20_ASSUME = [
+    "theorems are about the Gallina transliteration of contracts/cw20-ics20 (Ics20Model.v); agreement with the Rust is measured "
+    "on the explored histories only",
+    "IBC core: the counterparty endpoint of an incoming packet is genuine, every packet we sent is acknowledged or timed out at "
+    "most once and nobody else's is (the generator settles each sent packet at most once); the counterparty itself is arbitrary",
+    "honest cw20 tokens call Receive only from their own Send; an address calling Receive directly only creates state under its own key",
+    "IBC entry points are driven through a sudo adaptor of the harness; cw-multi-test's IbcAcceptingModule accepts SendPacket; its "
+    "bank pays any address string; SubMsg gas limits are recorded, not enforced; JSON wire formats are the crate's own types",
+    "balance-rewriting migrations (0.11-0.13 layouts) are in the executable model and in the differential run, not in the history theorems",
+]
+
+
+def _ics20_prop(pid, idx, clauses, proj, text):
+    return {
+        "id": pid, "props_file": "Props/%s.v" % pid,
+        "coq_targets": ["Props/%s.v" % pid, "Ics20Check.v"], "exec_targets": ["Ics20Check.v"],
+        "run": mk_ics20_run(idx, clauses, proj), "assumptions": ICS20_ASSUME, "level_text": text,
+        "design_ref": "DESIGN.md section 6 " + pid,
+    }
+
+
+PROPS["C11"] = _ics20_prop("C11", 0, C11_CLAUSES, "channel balances and holdings",
+    "Axiom-free Coq theorems: for every honest token, over EVERY history of transfers, cw20 sends, incoming packets with "
+    "arbitrary contents, acks, timeouts and donations in any order with payouts/refunds failing at arbitrary points, holdings "
+    ">= the sum over channels of the outstanding balance (induction over histories on the world = contract state + token "
+    "ledger); per channel outstanding <= total_sent in every reachable state; unparsable / foreign-port / foreign-channel / "
+    "foreign-denom / over-balance packets yield an error ack and change nothing. PARTIAL: balance-rewriting migrations are "
+    "outside the history theorem. Tie to the Rust: S_C11 on every step of generated histories on the real contract incl. IBC "
+    "entry points, failing payouts, hostile vouchers, legacy layouts + equality of holdings and channel state (measured).")
+PROPS["C12"] = _ics20_prop("C12", 1, C12_CLAUSES, "channel state, messages and acknowledgements",
+    "Axiom-free Coq theorems: over every history outstanding + failed + redeemed = sent and total_sent = sent per channel and "
+    "key (ghost sums, induction); the receive transaction always yields an acknowledgement (never aborts); an error ack leaves "
+    "everything but the scratch reply_args exactly as before (reduce + undo restore the very same table); a success ack only "
+    "for a voucher of our counterparty's port/channel, with exactly one payout of the amount and the balance reduced by it; "
+    "every accepted transfer emits exactly one packet (0 < amount <= 2^64-1, key, true sender, receiver, memo, block time + "
+    "requested-or-default timeout) and raises outstanding and total_sent by the amount. PARTIAL: migration paths are decided "
+    "by the differential run only. Tie to the Rust: S_C12 + the identity with ghost counters on every step (measured).")
+PROPS["C18"] = _ics20_prop("C18", 2, C18_CLAUSES, "allow list, governance address, defaults and payout gas limits",
+    "Axiom-free Coq theorems: every accepted execute call only loosens the allow list and changes it or the governance address "
+    "only when made by the current governance address; IBC entry points and migrate never touch the allow list; migrate sets "
+    "governance only from the pre-allow-list layout and keeps the default gas limit unless asked; a cw20 transfer is accepted "
+    "only if the token is allowed or a default limit is set; every payout/refund carries the token's limit or else the default "
+    "(none for native). Tie to the Rust: S_C18 on every step incl. gas_limit of the logged sub-messages (measured).")
